@@ -880,3 +880,30 @@ Proof.
            start stop factor j take fuel draws Hd M Lf
            (no_stall_zero_or_normal start stop factor V Lf Hs fuel) NF).
 Qed.
+
+(* through backoff_iter: for some fuel and number n of draws, pulling [take] values either leaves the
+   iterator live after exactly [take] values or exhausts it on (the un-jittered) stop *)
+Theorem binary64_default_count_iter : forall start stop factor j take,
+  let p := mkP ApiIter start stop CNone factor j take in
+  must_raise prim_ops p = false -> PrimFloat.ltb PrimFloat.one factor = true ->
+  PrimFloat.eqb start PrimFloat.zero = true \/ PrimFloat.leb minnorm start = true -> take <> O ->
+  exists fuel n, forall draws, draws_ok prim_ops draws -> (n <= length draws)%nat ->
+    let o := run prim_ops p fuel draws in
+    values_ok prim_ops p (o_vals o) = true /\
+    ((o_end o = EMore /\ length (o_vals o) = take) \/
+     (o_end o = EStop /\
+      last_is prim_ops stop (if jitter_off prim_ops j then o_vals o
+                             else ideal prim_ops stop factor start (length (o_vals o))) = true)).
+Proof.
+  intros start stop factor j take p M Lf Hs Ht.
+  destruct (must_raise_false_parts prim_ops p M) as [V _]. cbn [p p_start p_stop p_factor] in V.
+  destruct (valid_parts prim_ops start stop factor V) as (H0 & _).
+  destruct (default_count_terminates start stop factor H0) as [fuel Hfuel].
+  exists fuel, (Nat.max take (default_len prim_ops fuel start stop factor)). intros draws Hd Hn.
+  pose proof (run_iter_default_not_fuel_draws prim_ops prim_order_laws
+                start stop factor j take fuel draws V (Hfuel 1%Z)) as NF.
+  exact (default_count_iter_last_is_stop prim_ops prim_order_laws prim_grow_laws prim_jitter_laws
+           start stop factor j take fuel draws Hd M Lf
+           (no_stall_zero_or_normal start stop factor V Lf Hs fuel) Ht
+           (NF ltac:(lia) ltac:(lia))).
+Qed.
